@@ -154,7 +154,7 @@ let op_pm_q a =
 let op_pm_perm a =
   let perm = pm_zs (pm_hex a "perm") in
   let (found, pf) = pm_has_permission !pm_user perm in
-  let adm = List.map (fun (k, e) -> pm_keystr k ^ (if e then "!E" else "")) (pm_admits !pm_user perm !pm_inv) in
+  let adm = List.map (fun (k, e) -> pm_keystr k ^ (if e then "!E" else "")) (pm_allows !pm_user perm !pm_inv) in
   emit (Printf.sprintf "pm_perm has=%s has2=%s check=%s filtered=%s admits=%s" (b01 found) (b01 found)
           (if found then "ok" else "script") (b01 (pf <> None)) (pm_join_sorted adm))
 
